@@ -59,6 +59,8 @@ def make_hook(world_ref, wname, hname, outcome, log):
                            if k in ('pid', 'signum')}})
         if outcome == 'raise':
             raise HookRaised("%s of %s raises" % (hname, wname))
+        if outcome == 'raise-bare':
+            raise HookRaised()       # no message (a failing assert, ...)
         if outcome == 'second-false':
             n = len([e for e in log if e["watcher"] == wname and
                      e["hook"] == hname])
@@ -462,7 +464,7 @@ def lifecycle_cases(requests=('incr', 'decr', 'set', 'restart', 'reload',
                                         unique=True)):
                     hk[hn] = [draw(st.sampled_from(
                         ['true', 'false', 'raise', 'true', 'false', 'raise',
-                         'none'])), draw(st.booleans())]
+                         'none', 'raise-bare'])), draw(st.booleans())]
                 wc["hooks"] = hk
             if extra_watcher_opts:
                 wc.update(draw(extra_watcher_opts))
